@@ -357,7 +357,8 @@ class BaseTemplate:
             self.engine,
             module,
             str(self.filename),
-            body,
+            # the parsed text (line endings may have been normalized)
+            getattr(program, 'source', body),
             builtins=builtins,
             strict=self.strict
         )
